@@ -3,6 +3,7 @@ from world import amounts, specials
 
 ID = "C08"
 LEAN_MODULES = ["QtyModel.Props.C08"]
+HARNESS_GROUPS = ()
 RULE = ("every unit of every quantity type (with reference unit, without, single-unit, dimensionless, "
         "astronomical in f64, synthetic) x amount classes incl. zero/-0/inf/NaN/subnormal (f64) and boundary "
         "coefficients (decimal); ops new (3 constructor forms) and smul (k*q, q*k, q/k); "
